@@ -130,7 +130,7 @@ func (vfs *MemFS) Chmod(name string, mode fs.FileMode) error {
 func (vfs *MemFS) Chown(name string, uid, gid int) error {
 	const op = "chown"
 
-	if (vfs.HasFeature(avfs.FeatIdentityMgr) && !vfs.User().IsAdmin()) || vfs.OSType() == avfs.OsWindows {
+	if vfs.OSType() == avfs.OsWindows {
 		return &fs.PathError{Op: op, Path: name, Err: vfs.err.OpNotPermitted}
 	}
 
@@ -140,8 +140,13 @@ func (vfs *MemFS) Chown(name string, uid, gid int) error {
 	}
 
 	child.Lock()
+	defer child.Unlock()
+
+	if vfs.HasFeature(avfs.FeatIdentityMgr) && !child.canSetOwner(uid, gid, vfs.User()) {
+		return &fs.PathError{Op: op, Path: name, Err: vfs.err.OpNotPermitted}
+	}
+
 	child.setOwner(uid, gid)
-	child.Unlock()
 
 	return nil
 }
@@ -302,7 +307,7 @@ func (vfs *MemFS) Join(elem ...string) string {
 func (vfs *MemFS) Lchown(name string, uid, gid int) error {
 	const op = "lchown"
 
-	if (vfs.HasFeature(avfs.FeatIdentityMgr) && !vfs.User().IsAdmin()) || vfs.OSType() == avfs.OsWindows {
+	if vfs.OSType() == avfs.OsWindows {
 		return &fs.PathError{Op: op, Path: name, Err: vfs.err.OpNotPermitted}
 	}
 
@@ -312,8 +317,13 @@ func (vfs *MemFS) Lchown(name string, uid, gid int) error {
 	}
 
 	child.Lock()
+	defer child.Unlock()
+
+	if vfs.HasFeature(avfs.FeatIdentityMgr) && !child.canSetOwner(uid, gid, vfs.User()) {
+		return &fs.PathError{Op: op, Path: name, Err: vfs.err.OpNotPermitted}
+	}
+
 	child.setOwner(uid, gid)
-	child.Unlock()
 
 	return nil
 }
